@@ -71,6 +71,7 @@ pub open spec fn ms_partial_exact(old: Seq<&CweModule>, new: Seq<&CweModule>, s:
 }
 
 /// the entries of `MODULES_LKM` (checkers.rs), the "kernel-module subset" of the property
+#[verifier::inline]
 pub open spec fn ms_lkm() -> Seq<&'static str> { crate::checkers::MODULES_LKM@ }
 
 /// OBSERVATION O1 (not a claim): `MODULES_LKM` lists "CWE457", and no check of that name exists
@@ -110,3 +111,23 @@ pub open spec fn ms_split(s: Seq<char>, c: char) -> Seq<Seq<char>>
     if 0 <= i < s.len() { seq![s.take(i)] + ms_split(s.skip(i + 1), c) } else { seq![s] }
 }
 
+
+// ---- the selection statement of run_with_ghidra ----
+
+/// `p` is an entry of MODULES_LKM (element equality: the same text)
+pub open spec fn ms_in_lkm(p: Seq<char>) -> bool {
+    exists |k: int| 0 <= k < ms_lkm().len() && (#[trigger] ms_lkm()[k])@ == p
+}
+
+/// "a run on a Linux kernel module executes exactly the kernel-module subset": the modules whose name is an entry of MODULES_LKM
+pub open spec fn ms_lkm_pred<'a>() -> spec_fn(&'a CweModule) -> bool { |m: &CweModule| ms_in_lkm(m.name@) }
+
+/// "a default run executes every check except the OS-command-injection check"
+pub open spec fn ms_default_pred<'a>() -> spec_fn(&'a CweModule) -> bool { |m: &CweModule| m.name@ != ms_oscmd() }
+
+/// the three selection clauses of the property for one execution of the selection statement
+pub open spec fn ms_select_post(old: Seq<&CweModule>, new: Seq<&CweModule>, partial: Option<String>, is_lkm: bool) -> bool {
+    &&& partial is Some ==> ms_partial_post(old, new, partial->0@)
+    &&& partial is None && is_lkm ==> new == old.filter(ms_lkm_pred())
+    &&& partial is None && !is_lkm ==> new == old.filter(ms_default_pred())
+}
